@@ -224,8 +224,8 @@ Print Assumptions C16_trim_resolves_partial.
    struct-like lists hold what their names say.
    Hypotheses on the OUTPUT in THIS statement (decidable): its base services resolve
    ([base_ok]: discharged without a method filter in C16_trim_resolves_no_filter_partial),
-   every identifier used as a value keeps exactly one explanation ([ident_ok]: the counting
-   argument is not done), and the include tree of the output is lower than its number of files
+   every identifier used as a value keeps exactly one explanation ([ident_ok]: discharged for
+   every configuration in C16_trim_resolves_given_bases), and the include tree of the output is lower than its number of files
    (discharged for every configuration: C16_trimmed_includes_ok,
    C16_trim_resolves_given_bases_and_idents).  Proved: distinct plain global names, every type of every kept definition is
    accepted (typedef chains across files, qualified names after includes were deleted), void
@@ -295,6 +295,45 @@ Theorem C16_trim_resolves_no_filter_partial :
     Idl.ResolvableConst.resolvable q = true /\ exists r, Idl.Resolve.resolve_program q = Idl.Resolve.Ok r.
 Proof. exact Idl.TrimResolves.trim_resolves_no_filter. Qed.
 Print Assumptions C16_trim_resolves_no_filter_partial.
+
+(* ... and with the identifier hypothesis discharged as well (every configuration): for a
+   file of the output an identifier used as a value has the same number of explanations in
+   both programs.  What is left on the output is [base_ok] for its services, which matters
+   only with a method filter: *)
+Theorem C16_trim_resolves_given_bases :
+  forall matches cp c p q fin, wf p ->
+    mark_ast matches cp c p (prog_size p) = Ok fin ->
+    reach cp c p false (prog_size p) fin (main_name p) [] = Ok q ->
+    Idl.ResolvableConst.resolvable p = true ->
+    (forall fn f, prog_file p fn = Some f -> forall t, In t (Idl.ResolveSpec.file_occs f) -> Idl.ResolveInv.occ_good p fn f t) ->
+    (forall fn f k s, prog_file p fn = Some f -> In s (sl_list k f) -> sl_category s = k) ->
+    (forall F qf, In (F, qf) q -> forallb (Idl.ResolvableSpec.base_ok q F qf) (f_services qf) = true) ->
+    Idl.ResolvableConst.resolvable q = true /\ exists r, Idl.Resolve.resolve_program q = Idl.Resolve.Ok r.
+Proof. exact Idl.TrimResolves.trim_resolves_given_bases. Qed.
+Print Assumptions C16_trim_resolves_given_bases.
+
+(* trim_resolves WITHOUT a method filter, no hypothesis on the output left: a resolvable,
+   well-formed resolved program whose recorded resolution is the one C05's specification
+   prescribes (types: [occ_good]; base services: the include [spec_include is_service_kind]
+   chooses) is, after trimming, again resolvable, and [Resolve.resolve_program] succeeds on it. *)
+Theorem C16_trim_resolves_without_filter :
+  forall matches cp c p q fin, wf p ->
+    mark_ast matches cp c p (prog_size p) = Ok fin ->
+    reach cp c p false (prog_size p) fin (main_name p) [] = Ok q ->
+    Idl.ResolvableConst.resolvable p = true ->
+    (forall fn f, prog_file p fn = Some f -> forall t, In t (Idl.ResolveSpec.file_occs f) -> Idl.ResolveInv.occ_good p fn f t) ->
+    (forall fn f k s, prog_file p fn = Some f -> In s (sl_list k f) -> sl_category s = k) ->
+    filtering c = false ->
+    (forall fn f s, prog_file p fn = Some f -> In s (f_services f) ->
+       match split_type (sv_extends s) with
+       | [pre; m] => exists i gn, Idl.ResolveSpec.spec_include p Idl.ResolveSpec.is_service_kind pre m
+                                    (Idl.ResolveSpec.file_incs f) 0 = Some (i, gn) /\
+                                  sv_ref s = Some (Ref m (Z.of_nat i))
+       | _ => sv_ref s = None
+       end) ->
+    Idl.ResolvableConst.resolvable q = true /\ exists r, Idl.Resolve.resolve_program q = Idl.Resolve.Ok r.
+Proof. exact Idl.TrimResolves.trim_resolves_without_filter. Qed.
+Print Assumptions C16_trim_resolves_without_filter.
 
 (* the part of it that needs no hypothesis on the output: types *)
 Theorem C16_trimmed_types_resolve :
